@@ -28,15 +28,25 @@ type solverSpec struct {
 	argv func(file string, timeoutMs int, seed int) []string
 }
 
+// phase 1 is a cheap wall-clock filter (z3 for a moment); what it cannot decide goes to phase 2, whose limits are
+// deterministic, so a loaded machine changes how long a check takes, not what it answers
+var phase1Spec = solverSpec{"z3-new", func(f string, ms, seed int) []string {
+	return []string{"z3-new", fmt.Sprintf("-t:%d", ms), fmt.Sprintf("smt.random_seed=%d", seed), f}
+}}
+
+// Limits are deterministic resource limits (z3 rlimit, cvc5 --rlimit), so that the answer to a query does not depend
+// on how loaded the machine is; the nominal time t (ms) is converted with the rates measured on this image (z3 about
+// 2.5M units/s at the slow end, cvc5 about 50k units/s). The wall-clock limit is only a backstop, six times the
+// nominal time.
 var solverSpecs = []solverSpec{
 	{"z3-new", func(f string, ms, seed int) []string {
-		return []string{"z3-new", fmt.Sprintf("-t:%d", ms), fmt.Sprintf("smt.random_seed=%d", seed), f}
+		return []string{"z3-new", fmt.Sprintf("-t:%d", 6*ms), fmt.Sprintf("rlimit=%d", 2500*ms), fmt.Sprintf("smt.random_seed=%d", seed), f}
 	}},
 	{"cvc5", func(f string, ms, seed int) []string {
-		return []string{"cvc5", "--lang", "smt2", fmt.Sprintf("--tlimit=%d", ms), fmt.Sprintf("--seed=%d", seed), "--produce-models", f}
+		return []string{"cvc5", "--lang", "smt2", fmt.Sprintf("--tlimit=%d", 6*ms), fmt.Sprintf("--rlimit=%d", 50*ms), fmt.Sprintf("--seed=%d", seed), "--produce-models", f}
 	}},
 	{"z3", func(f string, ms, seed int) []string {
-		return []string{"z3", fmt.Sprintf("-t:%d", ms), fmt.Sprintf("smt.random_seed=%d", seed), f}
+		return []string{"z3", fmt.Sprintf("-t:%d", 6*ms), fmt.Sprintf("rlimit=%d", 2500*ms), fmt.Sprintf("smt.random_seed=%d", seed), f}
 	}},
 }
 
@@ -72,10 +82,18 @@ func cleanupScratch() {
 	}
 }
 
+func runOneWall(ctx context.Context, sp solverSpec, file string, timeoutMs int) (status, out string, secs float64) {
+	return runWith(ctx, sp, file, timeoutMs, timeoutMs+2000)
+}
+
 func runOne(ctx context.Context, sp solverSpec, file string, timeoutMs int) (status, out string, secs float64) {
+	return runWith(ctx, sp, file, timeoutMs, 6*timeoutMs+2000)
+}
+
+func runWith(ctx context.Context, sp solverSpec, file string, timeoutMs, killMs int) (status, out string, secs float64) {
 	argv := sp.argv(file, timeoutMs, solverSeed)
 	t0 := time.Now()
-	cctx, cancel := context.WithTimeout(ctx, time.Duration(timeoutMs+2000)*time.Millisecond)
+	cctx, cancel := context.WithTimeout(ctx, time.Duration(killMs)*time.Millisecond)
 	defer cancel()
 	cmd := exec.CommandContext(cctx, argv[0], argv[1:]...)
 	var buf bytes.Buffer
@@ -98,7 +116,16 @@ func runOne(ctx context.Context, sp solverSpec, file string, timeoutMs int) (sta
 
 // Solve discharges one query. Phase 1: z3-new alone with a short timeout (it decides almost everything in
 // well under a second). Phase 2, if undecided: z3-new, cvc5 and z3 4.8 raced with the full timeout, fewer at a time.
-func Solve(text string, timeoutMs int) SolverResult {
+// solveHint: sibling queries (path instances of one obligation) tend to be decided by the same solver; the one that
+// decided the previous sibling goes first.
+var (
+	prefMu    sync.Mutex
+	preferred = map[string]int{}
+)
+
+func Solve(text string, timeoutMs int) SolverResult { return SolveHint(text, timeoutMs, "") }
+
+func SolveHint(text string, timeoutMs int, hint string) SolverResult {
 	querySeqMu.Lock()
 	querySeq++
 	n := querySeq
@@ -129,13 +156,14 @@ func Solve(text string, timeoutMs int) SolverResult {
 		if timeoutMs < t1 {
 			t1 = timeoutMs
 		}
+		first := phase1Spec
 		solverSem <- struct{}{}
-		st, out, secs := runOne(context.Background(), solverSpecs[0], file, t1)
+		st, out, secs := runOneWall(context.Background(), first, file, t1)
 		<-solverSem
-		res.All[solverSpecs[0].name] = st
-		raws = append(raws, solverSpecs[0].name+"(phase1): "+strings.TrimSpace(firstN(out, 200)))
+		res.All[first.name] = st
+		raws = append(raws, first.name+"(phase1): "+strings.TrimSpace(firstN(out, 200)))
 		if st == "unsat" || st == "sat" {
-			res.Status, res.Solver, res.Seconds = st, solverSpecs[0].name, secs
+			res.Status, res.Solver, res.Seconds = st, first.name, secs
 			if st == "sat" {
 				if i := strings.Index(out, "\n"); i >= 0 {
 					res.Model = out[i+1:]
